@@ -845,6 +845,8 @@ func (*Context).evaluate
   requires forall k in [0, ctx.codeIndex): wfInstr(&ctx.code[k], k, ctx.codeIndex)
   requires ctx.parser != nil
   requires forall k in [0, ctx.codeIndex): ctx.code[k].T == typeDetailMark ==> 0 <= ctx.code[k].Value.(BufferSpan).Begin && ctx.code[k].Value.(BufferSpan).Begin <= ctx.code[k].Value.(BufferSpan).End && ctx.code[k].Value.(BufferSpan).End <= IntType(len(ctx.parser.data))
+  ensures ctx.Error == nil ==> len(ctx.stack) == 1000 && 0 <= ctx.top && ctx.top <= 1000
+  ensures ctx.Error == nil && ctx.top > 0 ==> wfValue(&ctx.stack[ctx.top-1])
   loop 1
     invariant 0 <= i && i <= num && len(data) == int(i) && e.top == atLoopEntry(e.top) - int(i)
     invariant forall k in [0, len(data)): data[k] != nil
@@ -1226,6 +1228,20 @@ func NewDictValWithArray
   loop 1
     invariant 0 <= i && i % 2 == 0 && i <= len(arr) && data != nil
   ensures result1 == nil ==> result0 != nil
+
+// ---- rollvm.go: Matched / RestInput (C03) ----
+
+func (*Context).RunAfterParsed
+  props C03 C01
+  requires ctx.parser != nil && 0 <= ctx.parser.pt.offset && ctx.parser.pt.offset <= len(ctx.parser.data)
+  requires ctx.parser.data != nil
+  requires 0 <= ctx.codeIndex && ctx.codeIndex <= len(ctx.code)
+  requires forall k in [0, ctx.codeIndex): wfInstr(&ctx.code[k], k, ctx.codeIndex)
+  requires forall k in [0, ctx.codeIndex): ctx.code[k].T == typeDetailMark ==> 0 <= ctx.code[k].Value.(BufferSpan).Begin && ctx.code[k].Value.(BufferSpan).Begin <= ctx.code[k].Value.(BufferSpan).End && ctx.code[k].Value.(BufferSpan).End <= IntType(len(ctx.parser.data))
+  ghost at call 1 ctx.evaluate: ghostAssume(ctx.parser != nil && ctx.parser.pt.offset == old(ctx.parser.pt.offset) && len(ctx.parser.data) == old(len(ctx.parser.data)) && &ctx.parser.data[0] == old(&ctx.parser.data[0]), "evaluate leaves the parser's input buffer and position alone (frame of evaluate: it never assigns parser.pt / parser.data)")
+  ensures [C03] result == nil ==> ctx.Matched + ctx.RestInput == string(ctx.parser.data)
+  ensures [C03] result == nil ==> len(ctx.Matched) <= ctx.parser.pt.offset
+  ensures [C03] result == nil ==> ctx.Ret != nil
 
 // ---- extension points (C17) ----
 
